@@ -261,7 +261,73 @@ def extra_checks(tier, seed):
                 "cases": n, "kind": "bounded-native", "seconds": time.time() - t0, "detail": "; ".join(bad[:4]),
                 "witness": {"problems": bad[:4]},
                 "replay": {"how": "cls.raw_to_value(cls.value_to_raw(x)) on the real classes", "problems": bad[:4]}})
+    out.append(declaration_probe())
     return out
+
+
+def declaration_probe():
+    """E: the declaration-time contract of the metaclass (_RegisterMemoryValue computes each class's MASK / TMASK pattern)
+    for every kind of declaration, not only the shipped ones - no shipped value is signed, so the sign-aware half of
+    'MASK and TMASK are recognised exactly at the all-ones and all-ones-minus-one patterns (sign- and scale-byte aware)'
+    is reachable only through a declaration.  Probe values are declared in a scratch bank (the shipped banks are not
+    touched): width 1..6 x signed / unsigned x mask_length_adjust 0 / -1, MASK and TMASK supported; the patterns are
+    compared with the specification and check_raw / from_list with every 1-byte string and the boundary strings of the
+    wider ones."""
+    from dali.memory.location import FlagValue, MemoryBank, MemoryRange, MemoryType, NumericValue
+    t0 = time.time()
+    bad = []
+    n = 0
+    bank = MemoryBank(100, 0xfe, has_latch=True)
+    addr = 0x03
+    for signed in (False, True):
+        for width in range(1, 7):
+            for adjust in ((0, -1) if width > 1 else (0,)):
+                ns = {"bank": bank, "locations": MemoryRange(start=addr, end=addr + width - 1, type_=MemoryType.RAM_RO),
+                      "signed": signed, "mask_supported": True, "tmask_supported": True}
+                if adjust:
+                    ns["mask_length_adjust"] = adjust
+                label = "%s %d-byte value%s" % ("signed" if signed else "unsigned", width, " (mask length %+d)" % adjust if adjust else "")
+                try:
+                    cls = type("Probe_%s%d_%d" % ("s" if signed else "u", width, -adjust), (NumericValue,), ns)
+                except Exception as e:      # noqa: BLE001
+                    bad.append("%s: declaration raised %s: %s" % (label, type(e).__name__, e))
+                    continue
+                addr += width
+                mw = width + adjust
+                top = (1 << (8 * mw - 1)) - 1 if signed else (1 << (8 * mw)) - 1
+                mask, tmask = top.to_bytes(mw, "big"), (top - 1).to_bytes(mw, "big")
+                n += 2
+                if getattr(cls, "mask", None) != mask:
+                    bad.append("%s: MASK pattern %r, specified %r" % (label, getattr(cls, "mask", None), mask))
+                if getattr(cls, "tmask", None) != tmask:
+                    bad.append("%s: TMASK pattern %r, specified %r" % (label, getattr(cls, "tmask", None), tmask))
+                if adjust:
+                    continue        # (how a shorter pattern is matched is the scale-byte value's own check_raw: proved per value)
+                bits = 8 * width
+                if width == 1:
+                    cands = list(range(256))
+                else:
+                    cands = sorted({(c + d) % (1 << bits) for c in (0, 1 << (bits - 1), (1 << bits) - 1, top, 0xfe, 0x7e)
+                                    for d in (-2, -1, 0, 1, 2)})
+                for x in cands:
+                    raw = x.to_bytes(width, "big")
+                    want = FlagValue.MASK if raw == mask else FlagValue.TMASK if raw == tmask else \
+                        int.from_bytes(raw, "big", signed=signed)
+                    lst = [None] * 0x100
+                    for loc, b in zip(cls.locations, raw):
+                        lst[loc.address] = b
+                    n += 1
+                    try:
+                        got = cls.from_list(lst)
+                    except Exception as e:      # noqa: BLE001
+                        got = "raised %s" % type(e).__name__
+                    if got != want or type(got) is not type(want):
+                        bad.append("%s: raw %s decodes to %r, specified %r" % (label, raw.hex(), got, want))
+    return {"name": "C11/declaration/mask-and-tmask-patterns-sign-aware-for-every-kind-of-declaration",
+            "status": "failed" if bad else "discharged", "cases": n, "kind": "exhaustive", "seconds": time.time() - t0,
+            "detail": "; ".join(bad[:4]), "witness": {"problems": bad[:4]},
+            "replay": {"how": "NumericValue subclasses declared in a scratch MemoryBank(100, 0xfe): cls.mask, cls.tmask, "
+                              "cls.from_list on the listed raw strings", "problems": bad[:20], "total": len(bad)}}
 
 
 # checks whose proof units establish the callee contracts applied here (re-verified by this check, see main.dependency_units)
